@@ -189,6 +189,8 @@ class Gen:
                     state = new
                 continue
             op = self.pick_op(cfg.ops)
+            if op == "join" and not state[2].startswith("sql"):
+                continue  # the iteration engine documents joins as unsupported
             if op in ("chain", "join"):
                 if depth <= 0:
                     continue
